@@ -140,6 +140,8 @@ def finish(prop, tier, seed, level, results, t0, functions, assumptions, trusted
             print("UNDECIDED property=%s obligation=%s status=%s %s" % (prop, r.name, r.status, r.detail[-300:].replace("\n", " | ")))
         if drift:
             print("UNDECIDED property=%s obligation set differs from contracts/baseline.json: %s" % (prop, json.dumps(drift)))
+    # an obligation that is refuted and recorded as an OPEN known finding is reported under known_findings_hit, not among the proof obligations
+    proof = [r for r in proof if r not in known_hits]
     n_ob = len(proof)
     n_dis = len([r for r in proof if r.status == "discharged"])
     cov = {
@@ -157,7 +159,7 @@ def finish(prop, tier, seed, level, results, t0, functions, assumptions, trusted
         "explanation": explanation,
     }
     if attempted: cov["attempted_not_verified"] = [r.row() for r in attempted]
-    if known_hits: cov["known_findings_hit"] = [r.name for r in known_hits]
+    if known_hits: cov["known_findings_hit"] = [{"obligation": r.name, "finding": known_for[(prop, r.name)][:400]} for r in known_hits]
     if extra_cov: cov.update(extra_cov)
     ev = {"property_id": prop, "tier": tier, "seed": int(seed), "level": level, "coverage": cov,
           "assumptions": assumptions, "wall_s": round(time.time() - t0, 2), "violations": len(violations)}
